@@ -97,10 +97,20 @@ impl RingBuffer {
 
             NonNull::new(new_buf).expect("Allocating new space for the ringbuffer failed")
         };
+        #[cfg(feature = "verif_hooks")]
+        crate::verif_hooks::mem("alloc", new_buf.as_ptr() as usize, new_cap);
 
         // If we had data before, copy it over to the newly alloced memory region
         if self.cap > 0 {
             let ((s1_ptr, s1_len), (s2_ptr, s2_len)) = self.data_slice_parts();
+            #[cfg(feature = "verif_hooks")]
+            {
+                crate::verif_hooks::mem("r", s1_ptr as usize, s1_len);
+                crate::verif_hooks::mem("w", new_buf.as_ptr() as usize, s1_len);
+                crate::verif_hooks::mem("r", s2_ptr as usize, s2_len);
+                crate::verif_hooks::mem("w", new_buf.as_ptr() as usize + s1_len, s2_len);
+                crate::verif_hooks::mem("dealloc", self.buf.as_ptr() as usize, self.cap);
+            }
 
             unsafe {
                 // SAFETY: Upholds invariant 2, we end up populating (0..(len₁ + len₂))
@@ -127,6 +137,8 @@ impl RingBuffer {
         self.reserve(1);
 
         // SAFETY: Upholds invariant 2 by writing initialized memory
+        #[cfg(feature = "verif_hooks")]
+        crate::verif_hooks::mem("w", self.buf.as_ptr() as usize + self.tail, 1);
         unsafe { self.buf.as_ptr().add(self.tail).write(byte) };
         // SAFETY: Upholds invariant 3 by wrapping `tail` around
         self.tail = (self.tail + 1) % self.cap;
@@ -140,6 +152,8 @@ impl RingBuffer {
             // SAFETY: Establishes invariants on memory being initialized and the range being in-bounds
             // (Invariants 2 & 3)
             let idx = (self.head + idx) % self.cap;
+            #[cfg(feature = "verif_hooks")]
+            crate::verif_hooks::mem("r", self.buf.as_ptr() as usize + idx, 1);
             Some(unsafe { self.buf.as_ptr().add(idx).read() })
         } else {
             None
@@ -166,6 +180,15 @@ impl RingBuffer {
         let in_f2 = len - in_f1;
 
         debug_assert!(in_f1 + in_f2 == len);
+        #[cfg(feature = "verif_hooks")]
+        {
+            if in_f1 > 0 {
+                crate::verif_hooks::mem("w", f1_ptr as usize, in_f1);
+            }
+            if in_f2 > 0 {
+                crate::verif_hooks::mem("w", f2_ptr as usize, in_f2);
+            }
+        }
 
         unsafe {
             // SAFETY: `in_f₁ + in_f₂ = len`, so this writes `len` bytes total
@@ -218,6 +241,11 @@ impl RingBuffer {
     /// Return references to each part of the ring buffer.
     pub fn as_slices(&self) -> (&[u8], &[u8]) {
         let (s1, s2) = self.data_slice_parts();
+        #[cfg(feature = "verif_hooks")]
+        {
+            crate::verif_hooks::mem("r", s1.0 as usize, s1.1);
+            crate::verif_hooks::mem("r", s2.0 as usize, s2.1);
+        }
         unsafe {
             // SAFETY: relies on the behavior of data_slice_parts for producing initialized memory
             let s1 = slice::from_raw_parts(s1.0, s1.1);
@@ -461,6 +489,11 @@ impl RingBuffer {
         let ((ptr1, len1), (ptr2, len2)) = self.free_slice_parts();
         debug_assert!(len1 + len2 >= fill_length);
         let fill1 = usize::min(len1, fill_length);
+        #[cfg(feature = "verif_hooks")]
+        {
+            crate::verif_hooks::mem("w", ptr1 as usize, fill1);
+            crate::verif_hooks::mem("w", ptr2 as usize, fill_length - fill1);
+        }
         unsafe {
             ptr1.write_bytes(fill_with, fill1);
         }
@@ -486,6 +519,11 @@ impl RingBuffer {
         let ((ptr1, len1), (ptr2, len2)) = self.free_slice_parts();
         debug_assert!(len1 + len2 >= fill_length);
         let fill1 = usize::min(len1, fill_length);
+        #[cfg(feature = "verif_hooks")]
+        {
+            crate::verif_hooks::mem("w", ptr1 as usize, fill1);
+            crate::verif_hooks::mem("w", ptr2 as usize, fill_length - fill1);
+        }
         let s1 = unsafe {
             ptr1.write_bytes(0, fill1);
             slice::from_raw_parts_mut(ptr1, fill1)
@@ -612,9 +650,16 @@ unsafe fn copy_bytes_overshooting(
 
     const COPY_AT_ONCE_SIZE: usize = core::mem::size_of::<CopyType>();
     let min_buffer_size = usize::min(src.1, dst.1);
+    #[cfg(feature = "verif_hooks")]
+    crate::verif_hooks::cbo(src.0 as usize, src.1, dst.0 as usize, dst.1, copy_at_least);
 
     // Can copy in just one read+write, very common case
     if min_buffer_size >= COPY_AT_ONCE_SIZE && copy_at_least <= COPY_AT_ONCE_SIZE {
+        #[cfg(feature = "verif_hooks")]
+        {
+            crate::verif_hooks::mem("r", src.0 as usize, COPY_AT_ONCE_SIZE);
+            crate::verif_hooks::mem("w", dst.0 as usize, COPY_AT_ONCE_SIZE);
+        }
         dst.0
             .cast::<CopyType>()
             .write_unaligned(src.0.cast::<CopyType>().read_unaligned())
@@ -622,6 +667,11 @@ unsafe fn copy_bytes_overshooting(
         let copy_multiple = copy_at_least.next_multiple_of(COPY_AT_ONCE_SIZE);
         // Can copy in multiple simple instructions
         if min_buffer_size >= copy_multiple {
+            #[cfg(feature = "verif_hooks")]
+            {
+                crate::verif_hooks::mem("r", src.0 as usize, copy_multiple);
+                crate::verif_hooks::mem("w", dst.0 as usize, copy_multiple);
+            }
             let mut src_ptr = src.0.cast::<CopyType>();
             let src_ptr_end = src.0.add(copy_multiple).cast::<CopyType>();
             let mut dst_ptr = dst.0.cast::<CopyType>();
@@ -633,6 +683,11 @@ unsafe fn copy_bytes_overshooting(
             }
         } else {
             // Fall back to standard memcopy
+            #[cfg(feature = "verif_hooks")]
+            {
+                crate::verif_hooks::mem("r", src.0 as usize, copy_at_least);
+                crate::verif_hooks::mem("w", dst.0 as usize, copy_at_least);
+            }
             dst.0.copy_from_nonoverlapping(src.0, copy_at_least);
         }
     }
@@ -925,5 +980,13 @@ mod tests {
         rb.extend_from_within(0, 4);
         assert_eq!(b"11", rb.as_slices().0);
         assert_eq!(b"111111", rb.as_slices().1);
+    }
+}
+
+#[cfg(feature = "verif_hooks")]
+impl RingBuffer {
+    /// (base address, cap, head, tail) — read-only view for the verification harness.
+    pub fn verif_raw_parts(&self) -> (usize, usize, usize, usize) {
+        (self.buf.as_ptr() as usize, self.cap, self.head, self.tail)
     }
 }
